@@ -16,6 +16,8 @@ from . import skel
 from . import numlib as nl
 
 LOC_PROBES = [
+    ("(define (area w h)\n  (* w h))\n(define z 1)\n\n(area\n   3)", 2, ("lines", 5, 6)),                        # wrong number of arguments: inside the failing form
+    ("(define (scale v)\n  (* v\n     missing-factor))\n(define z 1)\n(scale\n  3)", 2, (3, 6, 21)),     # a fault inside a called procedure: at the identifier there
     # (program, index of the failing form, (line, column range) the reported location must fall into)
     ("(define x 1)\n(car\n   (cdr nope))\n(define y 2)", 1, (3, 9, 13)),                 # unbound variable: at the identifier (the lexer reports the column after the token)
     ("(define x 1)\n(\n   (car (list 5))\n 2)", 1, (3, 4, 18)),                              # non-procedure: at the operator (on its own line)
@@ -37,6 +39,8 @@ def loc_probe(nat):
         nlines = prog.count("\n") + 1
         if want is None:
             ok = 1 <= line <= nlines
+        elif want[0] == "lines":
+            ok = want[1] <= line <= want[2]
         else:
             ok = line == want[0] and want[1] <= col <= want[2]
         if not ok:
@@ -72,6 +76,11 @@ def spec_eval_expression_locations(chk):
         if not (isinstance(err, Adt) and err.ty == "Located"):
             chk.oblige(ex, unit, "errors are located values", z3.BoolVal(False), {}, replay)
             return
+        payload = ex.deref(err.fields[0])
+        if isinstance(payload, Lazy) and any(payload.name.startswith(p_) for p_ in ("apply_result", "literal_result")):
+            # the payload of a sub-step's error wrapped into a NEW located error: its own (more precise) location was replaced
+            chk.oblige(ex, unit, "an error of a sub-evaluation is handed on unchanged", z3.BoolVal(False), {}, replay)
+            return
         kind = nl.err_kind(ex, err)
         loc = err.fields[1]
         for arm in skel.each_value(ex, tag, range(len(ARMS))):
@@ -88,6 +97,101 @@ def spec_eval_expression_locations(chk):
                 chk.oblige(ex, unit, "any other error raised by this step is reported at the node's own location", z3.BoolVal(bool(good)), {}, replay)
 
     skel.run_eval_expression(chk, ex, on_path)
+
+
+def spec_apply_procedure_locations(chk):
+    """apply_procedure has no syntax node of the failing form at hand: an error it raises itself (wrong number of arguments) must
+    not carry a location of its own - least of all one inside the called procedure's definition, which is another form - so that
+    eval_ast supplies the failing form's; errors of the steps it runs are handed on unchanged"""
+    ex = chk.executor(True)
+    nat = chk.ws.runner("dev")
+    unit = "Interpreter::apply_procedure: location of the errors it raises (callees stubbed)"
+    chk.region_ns = {}
+    replay = lambda vals: loc_probe(nat)
+
+    def on_path(rv, events, ar, info):
+        chk.path(unit)
+        if not (isinstance(rv, Adt) and rv.variant == "Err"):
+            return
+        err = ex.deref(rv.fields[0])
+        if isinstance(err, (Opaque, Lazy)):
+            return          # a callee's error, the same object
+        if not (isinstance(err, Adt) and err.ty == "Located"):
+            chk.oblige(ex, unit, "errors are located values", z3.BoolVal(False), {}, replay)
+            return
+        payload = ex.deref(err.fields[0])
+        if isinstance(payload, Lazy):
+            chk.oblige(ex, unit, "an error of a callee is handed on unchanged", z3.BoolVal(False), {}, replay)
+            return
+        loc = ex.deref(err.fields[1])
+        none = isinstance(loc, Adt) and loc.ty == "Option" and loc.variant == "None"
+        chk.oblige(ex, unit, "an error raised by apply_procedure itself carries no location of its own (the failing form's is supplied by eval_ast)", z3.BoolVal(bool(none)), {}, replay)
+
+    skel.run_apply_procedure(chk, ex, 2, on_path)
+
+
+LOC_ALPHABET = ["a", "(", ")", " ", "\n", "\r", ";", "1"]
+
+
+def spec_token_locations(chk, N):
+    """the location the lexer attaches to a token is the position right after the token's last character: lines counted from 1
+    and advanced by LF, columns counted from 1 and restarted after LF - for every text of <= N characters over a small alphabet
+    that contains comments and both line terminators"""
+    from . import lexskel
+    ex = chk.executor(True)
+    ex.string_mode = "chars"
+    ex.loop_bound = 20
+    nat = chk.ws.runner("dev")
+    unit = "Lexer: token locations on every text of <= %d characters over %r" % (N, "".join(LOC_ALPHABET))
+    chk.region_ns = {}
+    chars = [z3.Int("c%d" % i) for i in range(N)]
+    for c in chars:
+        ex.ctx.add(z3.Or(*[c == ord(a) for a in LOC_ALPHABET]))
+    ln = z3.Int("len")
+    ex.ctx.add(ln >= 0, ln <= N)
+    inputs = {"len": ln}
+    for i, c in enumerate(chars):
+        inputs["c%d" % i] = c
+    lx, src, peek = lexskel.make_lexer(ex, chars, ln)
+
+    def position_after(k):
+        line, col = z3.IntVal(1), z3.IntVal(1)
+        for i in range(k):
+            line, col = z3.If(chars[i] == 10, line + 1, line), z3.If(chars[i] == 10, z3.IntVal(1), col + 1)
+        return z3.simplify(line), z3.simplify(col)
+
+    def replay(vals):
+        text = "".join(chr(vals["c%d" % i]) for i in range(vals["len"]))
+        out = nat.cmd("tokloc %s" % hexs(text)).split()[2:]
+        toks = nat.cmd("tokdump %s" % hexs(text))
+        # independent reference: end position of every token by re-lexing prefixes is not available natively; compare with the
+        # positions computed from the text for the tokens the real lexer reports (token ends = where the next token search starts)
+        want = []
+        pos = 0
+        import re as _re
+        for m in _re.finditer(r"[a1]+|[()]", _re.sub(r";[^\n\r]*", lambda mm: " " * len(mm.group(0)), text)):
+            end = m.end()
+            line = 1 + text[:end].count("\n")
+            col = 1 + len(text[:end]) - (text[:end].rfind("\n") + 1)
+            want.append("%d:%d" % (line, col))
+        got = [x for x in out if x != "ERR"]
+        return got != want[:len(got)] or (len(got) < len(want) and "ERR" not in out), "text %r: token locations %s, positions after the tokens %s" % (text, out, want)
+
+    def on_end(tokens, status, err):
+        chk.path(unit)
+        post = []
+        for tok, a, b in tokens:
+            loc = ex.deref(tok.fields[1])
+            if not (isinstance(loc, Adt) and loc.variant == "Some"):
+                post.append(z3.BoolVal(False))
+                continue
+            arr = ex.deref(loc.fields[0])
+            line, col = position_after(b)
+            post.append(z3.And(arr.items[0].v == line, arr.items[1].v == col))
+        chk.oblige(ex, unit, "every token's location is the line and column right after its last character", z3.And(*post) if post else z3.BoolVal(True), inputs, replay)
+
+    ex.panic_hook = lambda info: None
+    lexskel.run_tokens(ex, lx, src, peek, N + 1, on_end)
 
 
 def spec_eval_ast_location(chk):
@@ -155,4 +259,6 @@ def run(chk):
     ]
     chk.run_probes("locations", loc_probe, chk.ws.runner("dev"), len(LOC_PROBES))
     chk.step("eval_expression locations", spec_eval_expression_locations, chk)
+    chk.step("apply_procedure locations", spec_apply_procedure_locations, chk)
     chk.step("eval_ast location", spec_eval_ast_location, chk)
+    chk.step("token locations", spec_token_locations, chk, 5 if chk.tier == "thorough" else 4)
